@@ -110,6 +110,18 @@ Theorem C17_rvss_own_share_committed : forall G t i d mb f, m_cm mb = d_cm d -> 
 Proof. exact own_share_committed. Qed.
 Print Assumptions C17_rvss_own_share_committed.
 
+(* Flip step 3: the complaint list handed to Reconstruct (sort, then unique) is duplicate-free, sorted and has exactly the members
+   that were complained about, whatever the arrival order and however often each was pushed; so <= t distinct targets never exceed t *)
+Theorem C17_flipN_complaint_set : forall raw,
+  NoDup (complaint_set raw) /\ sorted (complaint_set raw) /\ forall z, In z (complaint_set raw) <-> In z raw.
+Proof. exact complaint_set_spec. Qed.
+Print Assumptions C17_flipN_complaint_set.
+
+Theorem C17_flipN_complaint_set_bound : forall raw targets, (forall z, In z raw -> In z targets) ->
+  (length (complaint_set raw) <= length targets)%nat.
+Proof. exact complaint_set_bound. Qed.
+Print Assumptions C17_flipN_complaint_set_bound.
+
 (* the coin a party computes from its view = the sum of the committed shares of the members of Qual.
    committed mb f: the binding property of mb's Pedersen commitments (hypothesis; violating it yields log_g h);
    view_ok i mb f: party i's own share of mb lies on f (C17_rvss_final_share_matches) and the indices are below q - 1. *)
@@ -153,3 +165,5 @@ Example C17_rvss_unanswered_complaint_refuted :
   dealer_qualified G23 1 d = true /\ my_complaint G23 1 d = true /\ answered 1 d = false /\
   final_share G23 1 d = Some (9, 3) /\ matches G23 (d_cm d) 2 (9, 3) = false /\ matches G23 (d_cm d) 2 (8, 3) = true.
 Proof. cbv zeta. repeat split; vm_compute; reflexivity. Qed.
+Example C17_nonvacuous_complaint_set : complaint_set [5; 1; 5] = [1; 5] /\ uniq_adj [5; 1; 5] = [5; 1; 5].
+Proof. split; reflexivity. Qed.
